@@ -1,9 +1,10 @@
 /-
   Driver family `aof` (C11): the live connection, the log it leaves, and the replay of that log.
 
-  cfg <names A|B|…> <logSelect 0|1> <logWake 0|1>   → ok          (the write table comes from the translator via the check)
+  cfg <names A|B|…> <logSelect 0|1> <logWake 0|1> <byEffect 0|1>   → ok   (table and switches come from the translator via the check)
   reset                                             → ok          (empty server, empty log, db 0)
   ev cmd <viaExec 0|1> <now> <obs> <arg-hex>…        → <entries appended> # <db selected afterwards> # <covered 0|1> # <inModel 0|1>
+                                                       (obs: what a SPOP/SRANDMEMBER/RANDOMKEY drew, the id an `XADD *` was assigned; `_` none)
   ev wake <db> <now> <L|R> <key-hex>                 → same
   log                                               → the entries: commands separated by ` ; `, arguments by `|`  (`.` = no entry)
   file                                              → hex of the bytes of the file (`-` = empty)
@@ -51,10 +52,10 @@ def showEvs (evs : List Ferrous.Ev) : String :=
 
 def step (st : St) (ws : List String) : St × String :=
   match ws with
-  | ["cfg", names, ls, lw] =>
-    if (ls != "0" && ls != "1") || (lw != "0" && lw != "1") then (st, "bad-op") else
+  | ["cfg", names, ls, lw, le] =>
+    if (ls != "0" && ls != "1") || (lw != "0" && lw != "1") || (le != "0" && le != "1") then (st, "bad-op") else
     let w := if names == "." then [] else names.splitOn "|"
-    ({ st with cfg := { writes := w, logSelect := ls == "1", logWake := lw == "1" } }, "ok")
+    ({ st with cfg := { writes := w, logSelect := ls == "1", logWake := lw == "1", byEffect := le == "1" } }, "ok")
   | ["reset"] => ({ st with live := {}, lst := {}, entries := [] }, "ok")
   | "ev" :: "cmd" :: ve :: now :: obs :: args =>
     match now.toNat?, parseObs obs, args.mapM ofHex with
